@@ -21,6 +21,8 @@ class RefResult:
         self.entries = []
         self.table = []
         self.origin = {}
+        self.exp = {}         # node id -> expansion record (dict) for nodes created inside a macro expansion
+        self.expansions = []  # all expansion records: dict(id, macro, call, parent, args)
 
 
 CTX_OP = {"actor": "lives", "object": "object", "performer": "performer"}
@@ -138,6 +140,7 @@ class _Builder:
         self.n = 0
         self.labels = {}  # (scope, name) -> node id (tau placeholder)
         self.defined = set()
+        self.cur_exp = None
 
     def new(self, node, origin=None):
         self.n += 1
@@ -145,6 +148,8 @@ class _Builder:
         self.lts[nid] = node
         if origin is not None:
             self.res.origin[nid] = origin
+        if self.cur_exp is not None:
+            self.res.exp[nid] = self.cur_exp
         return nid
 
     def label_node(self, scope, name):
@@ -285,9 +290,10 @@ class _Builder:
         if isinstance(s, A.MsgSwitch):
             nxt = k
             if s.default is not None:
-                nxt = self.new(("op", ("DefaultText", (self.subst(s.default, ctx),)), nxt), s)
-            for v, text in reversed(s.cases):
-                nxt = self.new(("op", ("CaseText", (self.subst(v, ctx), self.subst(text, ctx))), nxt), s)
+                nxt = self.new(("op", ("DefaultText", (self.subst(s.default, ctx),)), nxt), (s, len(s.cases)))
+            for i in range(len(s.cases) - 1, -1, -1):
+                v, text = s.cases[i]
+                nxt = self.new(("op", ("CaseText", (self.subst(v, ctx), self.subst(text, ctx))), nxt), (s, i))
             return self.new(("op", (s.kind, (self.subst(s.value, ctx),)), nxt), s)
         if isinstance(s, A.Forever):
             start = self.new(None)
@@ -343,7 +349,14 @@ class _Builder:
             "subst": dict(zip(m.params, args)),
             "stack": ctx["stack"] + (s.name,),
         }
-        entry = self.seq(m.body, k, c2)
+        rec = {"id": len(self.res.expansions), "macro": m, "call": s, "parent": self.cur_exp, "args": args}
+        self.res.expansions.append(rec)
+        saved = self.cur_exp
+        self.cur_exp = rec
+        try:
+            entry = self.seq(m.body, k, c2)
+        finally:
+            self.cur_exp = saved
         return self.new(("tau", entry), s)
 
 
